@@ -12,7 +12,7 @@
        expected weight of r in the output of [rand_transfer] is proportional. *)
 From VK Require Import Base Core STV Laws EditSpec STVSpec.
 From VK.Spec Require Import LawSpec SampleSpec.
-From VK.Proofs Require Import Lib_sets Lib_rk Dist C12_expand C17_laws C03_transfer.
+From VK.Proofs Require Import Lib_sets Lib_rk Dist C06_pairwise C12_expand C17_laws C03_transfer.
 From Coq Require Import Permutation Lia Lqa Setoid Morphisms.
 
 (* ====================== positions: the law of random.sample ====================== *)
@@ -141,6 +141,48 @@ Proof.
     destruct (idxs_eqb_spec idxs idxs) as [_|H]; [reflexivity|contradiction].
   - unfold Qdiv. rewrite Qmult_1_l. apply Qinv_lt_0_compat. apply Qnat_pos.
     rewrite (perms_length nat). apply fact_pos.
+Qed.
+
+(* the permutations of 0..n-1 that start with a given selection: one per arrangement of the rest *)
+Lemma perms_with_prefix : forall n idxs R, NoDup idxs -> Permutation (idxs ++ R) (seq 0 n) ->
+  Permutation (filter (fun o => idxs_eqb idxs (firstn (length idxs) o)) (perms nat (seq 0 n)))
+              (map (app idxs) (perms nat R)).
+Proof.
+  intros n idxs R Hnd HR.
+  assert (HndAll : NoDup (idxs ++ R)).
+  { eapply Permutation_NoDup; [apply Permutation_sym; exact HR|apply seq_NoDup]. }
+  destruct (C12_expand.NoDup_app_inv nat idxs R HndAll) as [_ HndR].
+  apply NoDup_Permutation.
+  - apply NoDup_filter. apply (perms_NoDup nat). apply seq_NoDup.
+  - apply C06_pairwise.map_inj_NoDup; [intros a b E; apply app_inv_head in E; exact E|].
+    apply (perms_NoDup nat). exact HndR.
+  - intros o. rewrite filter_In, in_map_iff. split.
+    + intros [Ho Hev]. apply (perms_spec nat) in Ho.
+      destruct (idxs_eqb_spec idxs (firstn (length idxs) o)) as [E|]; [|discriminate].
+      exists (skipn (length idxs) o). split.
+      * rewrite E at 1. apply firstn_skipn.
+      * apply (perms_spec nat). apply (Permutation_app_inv_l idxs).
+        rewrite E at 1. rewrite firstn_skipn.
+        eapply Permutation_trans; [exact Ho|apply Permutation_sym; exact HR].
+    + intros (r' & <- & Hr'). apply (perms_spec nat) in Hr'. split.
+      * apply (perms_spec nat). eapply Permutation_trans; [|exact HR].
+        apply Permutation_app_head. exact Hr'.
+      * rewrite firstn_app, firstn_all, Nat.sub_diag. cbn [firstn]. rewrite app_nil_r.
+        destruct (idxs_eqb_spec idxs idxs) as [_|H]; [reflexivity|contradiction].
+Qed.
+
+(* every ordered selection of k distinct units has the same probability (n-k)!/n! *)
+Theorem usample_selection_prob : forall n idxs, NoDup idxs -> (forall i, In i idxs -> (i < n)%nat) ->
+  prob (idxs_eqb idxs) (usample n (length idxs)) ==
+  Qnat (fact (n - length idxs)) / Qnat (fact n).
+Proof.
+  intros n idxs Hnd Hr. destruct (complete_to_perm n idxs Hnd Hr) as [R HR].
+  unfold usample. rewrite prob_dbind_dret. unfold Laws.uperm. rewrite prob_uniform_of.
+  rewrite (Permutation_length (perms_with_prefix n idxs R Hnd HR)), map_length.
+  rewrite !(perms_length nat), seq_length.
+  assert (E : length R = (n - length idxs)%nat).
+  { pose proof (Permutation_length HR) as H. rewrite app_length, seq_length in H. lia. }
+  rewrite E. reflexivity.
 Qed.
 
 (* ---------- expectations ---------- *)
@@ -390,6 +432,95 @@ Proof.
   destruct (usample_support _ _ _ _ Hi) as (Hnd & Hlen & Hr & Hw).
   rewrite Nat.min_l in Hlen by exact Hk. split; [|lra].
   rewrite <- Hlen. apply sample_complete_idx; assumption.
+Qed.
+
+(* ---------- conversely: every accepted sample is an outcome of the law ---------- *)
+
+Lemma count_rk_pick_qsum : forall r (us : list ranking) idxs,
+  inject_Z (count_rk r (pick [] us idxs)) ==
+  qsum (map (fun i => if ranking_eqb r (nth i us []) then 1 else 0) idxs).
+Proof. intros r us idxs. rewrite count_rk_as_qsum. unfold pick. rewrite map_map. reflexivity. Qed.
+
+(* if every unit carrying r is already used, the used units carry r at least as often as all units *)
+Lemma all_used_count : forall r (us : list ranking) used,
+  NoDup used -> (forall i, In i used -> (i < length us)%nat) ->
+  (forall i, (i < length us)%nat -> ranking_eqb r (nth i us []) = true -> In i used) ->
+  (count_rk r us <= count_rk r (pick [] us used))%Z.
+Proof.
+  intros r us used Hnd Hr Hall. rewrite Zle_Qle, count_rk_pick_qsum, count_rk_as_qsum.
+  rewrite <- (map_nth_seq [] us) at 1. rewrite map_map.
+  set (g := fun i : nat => if ranking_eqb r (nth i us []) then 1 else 0).
+  rewrite <- (sum_selected g used (seq 0 (length us)) Hnd (seq_NoDup _ _)).
+  - apply Qle_lteq. right. apply qsum_map_ext_in. intros i Hi. apply in_seq in Hi.
+    change (g i == if selected i used then g i else 0).
+    destruct (selected i used) eqn:Es; [reflexivity|]. unfold g.
+    destruct (ranking_eqb r (nth i us [])) eqn:E; [|reflexivity].
+    rewrite (proj2 (selected_In i used) (Hall i ltac:(lia) E)) in Es. discriminate.
+  - intros i Hi. apply in_seq. specialize (Hr i Hi). lia.
+Qed.
+
+Lemma greedy_match : forall (us : list ranking) (l : list ranking) used,
+  NoDup used -> (forall i, In i used -> (i < length us)%nat) ->
+  (forall r, In r l -> (count_rk r l + count_rk r (pick [] us used) <= count_rk r us)%Z) ->
+  exists idxs, NoDup (idxs ++ used) /\ (forall i, In i idxs -> (i < length us)%nat) /\
+    Forall2 (fun r i => ranking_eqb r (nth i us []) = true) l idxs.
+Proof.
+  intros us l. induction l as [|r l IH]; intros used Hnd Hr Hinv.
+  - exists []. split; [exact Hnd|]. split; [intros i []|constructor].
+  - set (free := filter (fun i => ranking_eqb r (nth i us []) && negb (selected i used))
+                        (seq 0 (length us))).
+    destruct free as [|i free'] eqn:Ef.
+    + exfalso.
+      assert (Hall : forall i, (i < length us)%nat -> ranking_eqb r (nth i us []) = true -> In i used).
+      { intros i Hi Hm. destruct (selected i used) eqn:Es; [apply selected_In; exact Es|].
+        assert (Hin : In i free).
+        { apply filter_In. split; [apply in_seq; lia|]. rewrite Hm, Es. reflexivity. }
+        rewrite Ef in Hin. destruct Hin. }
+      pose proof (all_used_count r us used Hnd Hr Hall) as Hc.
+      pose proof (Hinv r (or_introl eq_refl)) as Hi.
+      pose proof (count_rk_in cand ceqb ceqb_spec r (r :: l) (or_introl eq_refl)). lia.
+    + assert (Hi : In i free) by (rewrite Ef; left; reflexivity).
+      apply filter_In in Hi. destruct Hi as [Hi1 Hi2]. apply in_seq in Hi1.
+      apply andb_true_iff in Hi2. destruct Hi2 as [Hm Hfree]. apply negb_true_iff in Hfree.
+      assert (Hnotin : ~ In i used).
+      { intros Hin. apply selected_In in Hin. congruence. }
+      destruct (IH (i :: used)) as (idxs & Hnd' & Hr' & HF).
+      * constructor; assumption.
+      * intros j [<-|Hj]; [lia|apply Hr; exact Hj].
+      * intros r' Hr'in. specialize (Hinv r' (or_intror Hr'in)).
+        cbn [STV.count_rk] in Hinv. unfold pick in *. cbn [map STV.count_rk].
+        match goal with |- (_ + (?a + ?b) <= _)%Z =>
+          match type of Hinv with (?c + _ + ?d <= _)%Z =>
+            change d with b in Hinv; assert (Hle : (a <= c)%Z) end end.
+        { destruct (ranking_eqb r' r) eqn:E2.
+          - match goal with |- ((if ?t then _ else _) <= _)%Z => destruct t end; lia.
+          - match goal with |- ((if ?t then _ else _) <= _)%Z => destruct t eqn:E1 end; [|lia].
+            exfalso. rewrite (Lib_rk.ranking_eqb_sym cand ceqb ceqb_spec) in Hm.
+            pose proof (Lib_sets.ranking_eqb_trans cand ceqb ceqb_spec r' _ r E1 Hm). congruence. }
+        lia.
+      * exists (i :: idxs). split.
+        -- cbn [app]. apply (Permutation_NoDup (l := idxs ++ i :: used)); [|exact Hnd'].
+           apply Permutation_sym, Permutation_middle.
+        -- split; [intros j [<-|Hj]; [lia|apply Hr'; exact Hj]|].
+           constructor; [exact Hm|exact HF].
+Qed.
+
+(* every sample the model accepts is, position by position up to set equality, a selection of
+   distinct unit ballots; no sign hypothesis is needed *)
+Theorem sample_sound_idx : forall pop k (l : list ranking),
+  valid_ballot_sample pop k l = true ->
+  Z.of_nat (length l) = k /\
+  exists idxs, NoDup idxs /\ (forall i, In i idxs -> (i < length (units pop))%nat) /\
+    Forall2 (fun r r' => ranking_eqb r r' = true) l (pick [] (units pop) idxs).
+Proof.
+  intros pop k l H. unfold STV.valid_ballot_sample in H. apply andb_true_iff in H.
+  destruct H as [H1 H2]. apply Z.eqb_eq in H1. rewrite forallb_forall in H2. split; [exact H1|].
+  destruct (greedy_match (units pop) l [] (NoDup_nil _) (fun i (Hi : In i []) => match Hi with end))
+    as (idxs & Hnd & Hr & HF).
+  - intros r Hr. specialize (H2 r Hr). apply Z.leb_le in H2.
+    pose proof (units_of_le_count r pop). unfold pick. cbn [map STV.count_rk]. lia.
+  - rewrite app_nil_r in Hnd. exists idxs. split; [exact Hnd|]. split; [exact Hr|].
+    unfold pick. clear -HF. induction HF as [|r i l idxs Hri _ IH]; cbn [map]; constructor; assumption.
 Qed.
 
 (* ---------- at the level of rand_transfer ---------- *)
